@@ -3,7 +3,7 @@ sys.path.insert(0,'/verif')
 import driver
 if __name__=='__main__':
     driver._PROTO=driver.load_proto()
-    r=driver._worker((sys.argv[1],'quick'))
+    r=driver._worker((sys.argv[1],'quick',0,1))
     print(r.get('error',''))
     for row in r['rows']:
         if row['ms']>300 or row['status']!='proved': print(row['name'], row['status'], row['ms'], row['backend'], row['note'])
